@@ -6,6 +6,7 @@ import (
 	"os"
 	"runtime"
 	"slices"
+	"strings"
 	"sync/atomic"
 
 	"github.com/go-task/task/v3/errors"
@@ -442,6 +443,9 @@ func (e *Executor) FindMatchingTasks(call *Call) []*MatchingTask {
 	if call == nil {
 		return nil
 	}
+	// A leading ":" marks a reference to a task of the root Taskfile: by now
+	// every task name is relative to the root
+	call.Task = strings.TrimPrefix(call.Task, ast.NamespaceSeparator)
 	var matchingTasks []*MatchingTask
 	// If there is a direct match, return it
 	if task, ok := e.Taskfile.Tasks.Get(call.Task); ok {
